@@ -267,8 +267,8 @@ class BlockSplit(Contract):
         yield (pts,), dict(spacing=2.5, shape=(2, 3))
         yield (pts,), dict(spacing=2.5, shape=(2, 3), region=(0.0, 10.0, 0.0, 10.0), adjust="region")
         yield (pts,), dict()
-        # few points over MANY blocks (more blocks than points, and more than 256 / 65536 of them)
-        for nblk, npt in ((20, 120), (300, 150)):
+        # few points over MANY blocks (more blocks than points, and more than 256 of them)
+        for nblk, npt in ((20, 120), (17, 60)):
             yield ((nrng.uniform(0, nblk, npt), nrng.uniform(0, nblk, npt)),), dict(spacing=1.0, region=(0.0, float(nblk), 0.0, float(nblk)))
         # easting and northing of DIFFERENT dtypes (integer / float32 next to float64) and UTM-sized coordinates with
         # blocks of about a metre (points 0.1 - 0.4 off the block edges: nothing coarser than float64 survives)
